@@ -302,7 +302,7 @@ func c13ParseRaces(log string, workload string) []c13Race {
 				if fn == "" || m == nil {
 					break
 				}
-				if k := strings.Index(m[1], "/lib/"); k >= 0 && !strings.Contains(m[1], "/pkg/mod/") && !strings.Contains(m[1], "/harness/") {
+				if k := strings.LastIndex(m[1], "/lib/"); k >= 0 && strings.HasPrefix(fn, "github.com/mithrandie/csvq/") {
 					ln := 0
 					fmt.Sscan(m[2], &ln)
 					fn = strings.TrimSuffix(fn, "()")
